@@ -1,7 +1,7 @@
 (* C04 - the linker's descriptor views (linker/descriptors.go), as functions of the raw descriptor-proto
    facts they read. Mirrors fldDescriptor.Cardinality, Kind, IsMap, isMapEntry, parentIsMap, IsList,
    HasPresence, HasOptionalKeyword, IsPacked, internal.CanPack, enumDescriptor.IsClosed and
-   msgDescriptor.RequiredNumbers as they are in the pinned tree. Definitions only. *)
+   msgDescriptor.RequiredNumbers as they are in the tree (with the three C04 repairs). Definitions only. *)
 From Coq Require Import List NArith Bool.
 From PV Require Import Model.FeaturesTables Model.Features.
 Import ListNotations.
@@ -94,14 +94,19 @@ Definition is_packed (f : field) : bool :=
        | None => f_resolve f RepeatedFieldEncoding =? RFE_PACKED
        end.
 
-(* enumDescriptor.IsClosed *)
+(* enumDescriptor.IsClosed: everything that is not OPEN is closed (the repaired code; fix C04-is-closed-unknown) *)
 Definition is_closed (edition : N) (c : chain) : bool :=
-  resolve_feature edition c EnumType =? ET_CLOSED.
+  negb (resolve_feature edition c EnumType =? ET_OPEN).
 
-(* msgDescriptor.RequiredNumbers, as it is in the pinned tree: selects on the label *)
+(* msgDescriptor.RequiredNumbers: the fields whose Cardinality() is Required (the repaired code; fix
+   C04-required-numbers) *)
 Definition required_numbers (fields : list field) : list N :=
-  map f_number (filter (fun f => f_label f =? LABEL_REQUIRED) fields).
-
-(* the proposed repair: select on the field's Cardinality() *)
-Definition required_numbers_repaired (fields : list field) : list N :=
   map f_number (filter (fun f => cardinality f =? CARD_REQUIRED) fields).
+
+(* ---- the code before the repairs, kept for the historical refutations in Proofs/Features.v ---- *)
+(* IsClosed compared with CLOSED *)
+Definition is_closed_old (edition : N) (c : chain) : bool :=
+  resolve_feature edition c EnumType =? ET_CLOSED.
+(* RequiredNumbers selected on the label *)
+Definition required_numbers_old (fields : list field) : list N :=
+  map f_number (filter (fun f => f_label f =? LABEL_REQUIRED) fields).
